@@ -1,0 +1,28 @@
+// Copyright (c) 2025, Peter Ohler, All rights reserved.
+
+package bag
+
+import (
+	"io"
+
+	"github.com/ohler55/ojg/sen"
+)
+
+// The package level parse functions of ojg/sen share pooled parsers. A parser
+// that stopped at an error after a '+' (SEN string concatenation) keeps that
+// state, goes back to the pool, and makes later valid documents with quoted
+// strings fail. Each parse therefore uses a parser of its own.
+
+// mustParseSEN parses SEN (or JSON) text with a fresh parser and panics on
+// error.
+func mustParseSEN(buf []byte, args ...any) any {
+	var p sen.Parser
+	return p.MustParse(buf, args...)
+}
+
+// mustParseSENReader reads and parses SEN (or JSON) with a fresh parser and
+// panics on error.
+func mustParseSENReader(r io.Reader, args ...any) any {
+	var p sen.Parser
+	return p.MustParseReader(r, args...)
+}
